@@ -129,7 +129,13 @@ func (f *frame) execInstr(in ssa.Instruction) {
 	case *ssa.Lookup:
 		f.execLookup(x)
 	case *ssa.MakeChan:
-		f.vals[x] = f.alloc(f.vname(x))
+		r := f.alloc(f.vname(x))
+		f.vals[x] = r
+		if f.chanModel() {
+			buf, capa := f.chanArrays()
+			f.c.heapSet(f.heap, "G cbuf", store(buf, r, tZero))
+			f.c.heapSet(f.heap, "G ccap", store(capa, r, f.asTerm(f.get(x.Size))))
+		}
 	case *ssa.MakeClosure:
 		cl := &Closure{Fn: x.Fn.(*ssa.Function)}
 		for _, b := range x.Bindings {
@@ -478,8 +484,15 @@ func (f *frame) execUnOp(x *ssa.UnOp) {
 		if t, ok := pv.(Term); ok {
 			f.nilCheck(x, t)
 		}
-		v := c.name(f.vname(x), f.load(f.heap, a))
-		c.assume(implies(f.guard, c.typeInv(v, x.Type(), c.nalloc(f.heap), 0)))
+		lv := f.load(f.heap, a)
+		v := c.name(f.vname(x), lv)
+		wm := c.nalloc(f.heap)
+		if readsEntryVersion(lv.S) && f.entry != nil {
+			// a value read from the heap as it was at function entry (the location has not been
+			// written since) refers to objects that existed at entry — not to anything allocated later
+			wm = c.nalloc(f.entry)
+		}
+		c.assume(implies(f.guard, c.typeInv(v, x.Type(), wm, 0)))
 		f.vals[x] = v
 	case token.NOT:
 		f.vals[x] = not(f.term(x.X))
@@ -837,7 +850,40 @@ func (c *Ctx) keepGhost(from, to *heapState, except map[string]bool) {
 }
 
 func (f *frame) execSend(x *ssa.Send) {
+	if f.chanModel() {
+		ch := f.asTerm(f.get(x.Chan))
+		f.chanAdd(ch, f.guard, 1)
+		return
+	}
 	f.abstraction("channel send modelled as a no-op on tracked state")
+}
+
+// Sequential model of buffered channels (only when the ghost fields cbuf / ccap are declared):
+// cbuf(ch) is the number of values sent and not yet received, ccap(ch) the capacity given to make.
+// A send adds one, a receive takes one (not below zero); a non-blocking send that falls through
+// to `default` found the buffer full. Concurrent parties (a receiver already waiting, which takes
+// the value directly) are outside this model — the contracts using it are per call.
+func (f *frame) chanModel() bool {
+	return f.c.eng.ghosts["cbuf"] != nil && f.c.eng.ghosts["ccap"] != nil
+}
+
+func (f *frame) chanArrays() (buf, capa Term) {
+	srt := arraySort(SInt, SInt)
+	return f.c.heapGet(f.heap, "G cbuf", srt), f.c.heapGet(f.heap, "G ccap", srt)
+}
+
+func (f *frame) chanAdd(ch, guard Term, delta int64) {
+	c := f.c
+	c.assumed["channels: sequential model of the buffer (values sent and not yet received); concurrent senders/receivers are not modelled"] = true
+	buf, _ := f.chanArrays()
+	cur := sel(buf, ch)
+	var nv Term
+	if delta > 0 {
+		nv = add(cur, intLit(delta))
+	} else {
+		nv = ite(gt(cur, tZero), sub(cur, tOne), tZero)
+	}
+	c.heapSet(f.heap, "G cbuf", ite(guard, store(buf, ch, nv), buf))
 }
 
 func (f *frame) execRecv(x *ssa.UnOp) {
@@ -845,6 +891,9 @@ func (f *frame) execRecv(x *ssa.UnOp) {
 	f.abstraction("channel receive yields an unconstrained value")
 	et := types.Unalias(x.X.Type()).Underlying().(*types.Chan).Elem()
 	v := f.havocVal(et, f.vname(x), f.heap)
+	if f.chanModel() {
+		f.chanAdd(f.asTerm(f.get(x.X)), f.guard, -1)
+	}
 	if x.CommaOk {
 		f.vals[x] = Tuple{v, c.fresh(f.vname(x)+".ok", SBool)}
 	} else {
@@ -863,6 +912,23 @@ func (f *frame) execSelect(x *ssa.Select) {
 	c.assume(and(le(lo, idx), lt(idx, intLit(int64(len(x.States))))))
 	recvOk := c.fresh(f.vname(x)+".recvok", SBool)
 	out := Tuple{idx, recvOk}
+	if f.chanModel() {
+		for k, st := range x.States {
+			ch := f.asTerm(f.get(st.Chan))
+			chosen := and(f.guard, eq(idx, intLit(int64(k))))
+			buf, capa := f.chanArrays()
+			c.assume(implies(f.guard, and(ge(sel(buf, ch), tZero), le(sel(buf, ch), imaxT(sel(capa, ch), tZero)))))
+			if st.Dir == types.SendOnly {
+				if !x.Blocking {
+					// falling through to default: this send found the buffer full
+					c.assume(implies(and(f.guard, eq(idx, intLit(-1))), ge(sel(buf, ch), sel(capa, ch))))
+				}
+				f.chanAdd(ch, chosen, 1)
+			} else {
+				f.chanAdd(ch, chosen, -1)
+			}
+		}
+	}
 	for k, st := range x.States {
 		if st.Dir == types.RecvOnly {
 			et := types.Unalias(st.Chan.Type()).Underlying().(*types.Chan).Elem()
@@ -900,4 +966,17 @@ func (f *frame) recvAssumptions(ch ssa.Value, v Val, et types.Type, guard, ok Te
 			f.c.assumed["assumed when channel "+rs.Chan+" is closed and drained: "+cl.Text] = true
 		}
 	}
+}
+
+// readsEntryVersion: the term is (select |K@0| r) or (select (select |K@0| b) i) — a read of the
+// entry version of a heap array.
+func readsEntryVersion(s string) bool {
+	for strings.HasPrefix(s, "(select ") {
+		s = s[len("(select "):]
+	}
+	if !strings.HasPrefix(s, "|") {
+		return false
+	}
+	j := strings.Index(s[1:], "|")
+	return j > 2 && strings.HasSuffix(s[1:1+j], "@0")
 }
